@@ -189,6 +189,11 @@ func cmdCheck(args []string) {
 	maxRuns := int(envInt("VERIF_MAX_RUNS", 1<<30))
 	t0 := time.Now()
 	deadline := t0.Add(time.Duration(budget) * time.Second)
+	// watchdog: a stuck harness is reported as such (exit 2), never as a violation
+	time.AfterFunc(time.Duration(budget)*3*time.Second+25*time.Minute, func() {
+		fmt.Printf("HARNESS-ERROR: watchdog: check %s %s still running after %v\n", prop, tier, time.Since(t0))
+		os.Exit(2)
+	})
 
 	self, _ := os.Executable()
 	var mu sync.Mutex
@@ -249,12 +254,16 @@ func cmdCheck(args []string) {
 				next++
 				if left := time.Until(deadline); (left < 40*time.Second && getProfile(sp.Profile).Long) || (left < 75*time.Second && sp.Profile == "longer") {
 					if allLong {
-						mu.Lock()
-						stop = true
-						mu.Unlock()
-						break
+						if sp.Profile != "long" && left >= 40*time.Second {
+							sp.Profile = "long" // still time for a shorter long-horizon run
+						} else {
+							stop = true // mu is held here
+							mu.Unlock()
+							break
+						}
+					} else {
+						sp.Profile = "mixed" // a long-horizon run would overrun the budget
 					}
-					sp.Profile = "mixed" // a long-horizon run would overrun the budget
 				}
 				mu.Unlock()
 				b, _ := json.Marshal(sp)
